@@ -41,6 +41,12 @@ func (*inArray) Exit(node *Node) {
 					}
 
 				string:
+					if t == nil || t.Kind() != reflect.String {
+						// Same as above: the lookup map has string keys,
+						// so the left side must be of string type.
+						return
+					}
+
 					for _, a := range array.Nodes {
 						if _, ok := a.(*StringNode); !ok {
 							return
